@@ -140,9 +140,9 @@ class Scale(EnvironmentFilter):
         #get the potential keys to scale
         potential_keys = None
         if is_dense_context:
-            potential_keys = [i for i,v in enumerate(first_context) if isinstance(v,(int,float))]
+            potential_keys = [i for i,v in enumerate(first_context) if isinstance(v,(int,float)) or v is None]
         if is_sparse_context:
-            unscalable_cols = {k for k,v in first_context.items() if not isinstance(v,(int,float))}
+            unscalable_cols = {k for k,v in first_context.items() if not (isinstance(v,(int,float)) or v is None)}
             potential_keys  = set().union(*map(methodcaller("keys"),fitting_contexts)) - unscalable_cols
         if is_value_context:
             potential_keys = [0]
